@@ -282,6 +282,11 @@ def gen_block_sizes(rng):
             lits = bytes([rng.randrange(256)]) * (bmax - 3)
             fb.compressed(lits, [(bmax - 3, 3, 1 + 3)], litmode="rle", litkw=dict(size_format=3), modes=("predefined", "predefined", "predefined"))
             fb.rle(9, 1)
+            # a compressed block whose STORED size is exactly Block_Maximum_Size (refused by libzstd before v1.5.4; allowed by the format)
+            nf = rng.choice([1, 2])
+            hdr = 3 if bmax - 2 - nf >= 4096 or variant == 3 else 2
+            fb.compressed(rand_lits(rng, bmax - hdr - nf, 256), [], litmode="raw", litkw=dict(size_format=1 if hdr == 2 else 3), nbseq_form=nf)
+            assert len(fb.blocks[-1][1]) == bmax
             f, x = fb.frame()
             res.append((("blocksizes w=%d v=%d" % (window, variant)) + fb.tag(), f, x))
     # single-segment frames: every content-size width, window = content size
@@ -668,9 +673,10 @@ def gen_split_literals(rng, n=10):
     its literal buffer (litSize - 65536), with zero-length literal runs right there, and 0 / some trailing literals"""
     res = []
     for i in range(n):
-        fb = FB(rng, window=1 << 17, declare_fcs=rng.random() < 0.5)
-        if rng.random() < 0.5:
-            fb.rle(3, rng.choice([1, 5000, 131072]))
+        win = _w(7, rng.randrange(8)) if rng.random() < 0.7 else _w(8, rng.randrange(4))     # 128 KiB .. 384 KiB, with mantissa
+        fb = FB(rng, window=win, declare_fcs=rng.random() < 0.5)
+        for _ in range(rng.choice([0, 1, 2, 4])):       # the phase of the streaming decoder's ring buffer at the big block varies
+            fb.rle(rng.randrange(256), rng.choice([1, 5000, 70001, 131072]))
         L = rng.choice([65537, 65536 + 32, 65536 + 33, 70000, 100000, 131072 - 3 - 64])
         split = L - 65536
         cuts = sorted(set(max(0, min(L, split + d)) for d in (-33, -32, -1, 0, 0, 1, 31, 32, 33) if rng.random() < 0.6))
@@ -684,7 +690,7 @@ def gen_split_literals(rng, n=10):
             pos = c
             if rng.random() < 0.5:
                 seqs.append((0, 3, rng.choice([1, 2, 3, 1 + 3])))
-        seqs = fix_seqs(seqs, len(fb.ex.out), 1 << 17, fb.ex.reps)
+        seqs = fix_seqs(seqs, len(fb.ex.out), win, fb.ex.reps)
         budget = 131072 - L
         keep, tot = [], 0
         for s in seqs:
@@ -807,7 +813,7 @@ def all_frames(rng, quick):
     add(gen_spelled_blocks(rng, 4 if quick else 30))
     add(gen_empty_frames(rng, 6 if quick else 40))
     add(gen_random_frames(rng, 40 if quick else 600))
-    add(gen_block_sizes(rng), 6000 if quick else None, 12 if quick else None)
+    add(gen_block_sizes(rng), 8000 if quick else None, 12 if quick else None)
     add(gen_huffman(rng), 2000 if quick else None, 45 if quick else None)
     if not quick:
         add(gen_huffman(rng, big=True))
@@ -901,6 +907,16 @@ def gen_dict_frames(rng, n=12):
         f, x = fb.frame()
         if f is not None:
             res.append(("dictw did=%d clen=%d w=%d %s" % (did, clen, window, ",".join(fb.note)[:40]) + fb.tag(), f, x, d))
+            # several frames for one dictionary in one stream (every frame starts again from the dictionary's tables / repeat offsets / tree,
+            # whatever the previous frame left in the context), skippable frames in between
+            if rng.random() < 0.5:
+                sk = (0x184D2A50 + rng.randrange(16)).to_bytes(4, "little") + (2).to_bytes(4, "little") + b"sk"
+                parts = [(f, x)]
+                if len(res) >= 2 and res[-2][3] == d:
+                    parts.append((res[-2][1], res[-2][2]))
+                parts.append((f, x))
+                stream = sk.join(p[0] for p in parts)
+                res.append(("dictw multiframe x%d did=%d" % (len(parts), did) + fb.tag(), stream, b"".join(p[1] for p in parts), d))
     return res
 
 
